@@ -802,6 +802,7 @@ def emit(repo, verif_root):
 
     emit_bindings(verif_root, ops, smithy, op_names, consts)
     emit_labels(verif_root, ops, smithy, op_names)
+    emit_form_types(repo, verif_root, ops, op_names)
     emit_payloads(repo, verif_root, ops, smithy, shapes, op_names)
     emit_rust(repo, verif_root, ops, smithy, op_names, trait_methods, shapes, hooks)
     return {"ops": len(op_names), "arms": len(arms), "rules": sum(len(a["rules"]) for a in arms.values()),
@@ -989,6 +990,71 @@ def emit_labels(verif_root, ops, smithy, op_names):
     L.append("")
     L.append("end S3V.Gen")
     write_if_changed(os.path.join(verif_root, "lean/S3V/Gen/Labels.lean"), "\n".join(L) + "\n")
+
+
+def emit_form_types(repo, verif_root, ops, op_names):
+    """Gen/FormTypes.lean: for every member `deserialize_http_multipart` reads with `parse_field_value(_timestamp)`, the
+    scalar kind of the member's Rust type (the `T` of `parse_field_value::<T>`, fixed by the field of the input struct):
+    the type alias of dto/generated.rs resolved to bool / i32 / i64 / String / Timestamp, or a string enum whose
+    `FromStr` is `Ok(Self::from(s.to_owned()))` with `Err = Infallible`."""
+    src = open(os.path.join(repo, "crates/s3s/src/dto/generated.rs")).read()
+    mp_ops = [o for o in op_names if ops[o]["inputs_mp"] is not None]
+    o = mp_ops[0]
+    fields = dict(parse_struct_fields(repo, [ops[o]["input_type"]])[ops[o]["input_type"]])
+
+    def kind_of(ty):
+        m = re.fullmatch(r"Option<(\w+)>", ty)
+        if m:
+            ty = m.group(1)
+        seen = 0
+        while True:
+            if ty in ("bool", "i32", "i64"):
+                return ty
+            if ty == "String":
+                return "string"
+            if ty == "Timestamp":
+                return "timestamp"
+            if ty == "ContentType":
+                ct = open(os.path.join(repo, "crates/s3s/src/dto/content_type.rs")).read()
+                if "\npub type ContentType = mime::Mime;" in ct:
+                    return "mime"
+            m = re.search(r"\npub type " + ty + r" = (\w+);", src)
+            if m and seen < 8:
+                ty = m.group(1)
+                seen += 1
+                continue
+            m = re.search(r"\nimpl FromStr for " + ty + r" \{\s*type Err = Infallible;\s*fn from_str\(s: &str\) -> Result<Self, Self::Err> \{\s*Ok\(Self::from\(s\.to_owned\(\)\)\)\s*\}\s*\}", src)
+            if m:
+                return "strEnum"
+            raise Unrecognised(f"{o}::deserialize_http_multipart: cannot classify the member type `{ty}`")
+
+    rows = []
+    for t in sorted(ops[o]["inputs_mp"]):
+        member, kind = t[0], t[1]
+        if kind not in ("field", "field-required"):
+            continue
+        if member not in fields:
+            raise Unrecognised(f"{ops[o]['input_type']} has no field {member}")
+        k = kind_of(fields[member])
+        if (k == "timestamp") != (t[3] is not None):
+            raise Unrecognised(f"{o}::deserialize_http_multipart: member {member}: timestamp type and parse_field_value_timestamp do not go together")
+        rows.append(f"({lean_str_bytes(norm_member(member))}, .{k})")
+    L = []
+    L.append("/- GENERATED by translate/ops_tables.py — the scalar kind of every member `deserialize_http_multipart` reads from a")
+    L.append("   form field (ops/generated.rs, dto/generated.rs). Regenerated on every run; do not edit. -/")
+    L.append("import S3V.Gen.Bindings")
+    L.append("namespace S3V.Gen")
+    L.append("")
+    L.append("/-- the Rust type `parse_field_value::<T>` is instantiated at, by kind: `String`; a string enum (`FromStr` =")
+    L.append("    `Ok(Self::from(s.to_owned()))`, `Err = Infallible`); `bool`; `i32`; `i64`; `Timestamp` (read by")
+    L.append("    `parse_field_value_timestamp` with the format of the table row); `mime::Mime` (`ContentType`) -/")
+    L.append("inductive FormScalar where\n  | string | strEnum | bool | i32 | i64 | timestamp | mime\n  deriving DecidableEq, Repr")
+    L.append("")
+    L.append("/-- T2: member (normal form of `FormBinding.member`) and kind, sorted by member -/")
+    L.append("def implFormScalars : List (List UInt8 × FormScalar) := [" + ", ".join(rows) + "]")
+    L.append("")
+    L.append("end S3V.Gen")
+    write_if_changed(os.path.join(verif_root, "lean/S3V/Gen/FormTypes.lean"), "\n".join(L) + "\n")
 
 
 def emit_payloads(repo, verif_root, ops, smithy, shapes, op_names):
